@@ -156,12 +156,18 @@ end AslModel.Codec
 namespace AslModel.Query
 open AslModel.Codec
 
-/-- `String::operator<` (`strcmp(a, b) < 0` on unsigned bytes) -/
+/-- lexicographic order on unsigned bytes -/
 def bytesLt : List UInt8 → List UInt8 → Bool
   | [], [] => false
   | [], _ :: _ => true
   | _ :: _, [] => false
   | a :: as, b :: bs => if a < b then true else if b < a then false else bytesLt as bs
+
+/-- the C string held in a byte buffer: everything before the first NUL -/
+def cstr (s : List UInt8) : List UInt8 := s.takeWhile (· != 0)
+
+/-- `String::operator<`: `strcmp(a, b) < 0`, which never looks past a NUL -/
+def strLt (a b : List UInt8) : Bool := bytesLt (cstr a) (cstr b)
 
 abbrev Dict := List (List UInt8 × List UInt8)
 
@@ -169,8 +175,8 @@ abbrev Dict := List (List UInt8 × List UInt8)
 def dicSet : Dict → List UInt8 → List UInt8 → Dict
   | [], k, v => [(k, v)]
   | (k', v') :: r, k, v =>
-    if bytesLt k k' then (k, v) :: (k', v') :: r
-    else if bytesLt k' k then (k', v') :: dicSet r k v
+    if strLt k k' then (k, v) :: (k', v') :: r
+    else if strLt k' k then (k', v') :: dicSet r k v
     else (k', v) :: r
 
 def ofPairs (l : Dict) : Dict := l.foldl (fun acc kv => dicSet acc kv.1 kv.2) []
